@@ -1383,16 +1383,27 @@ rrul_fill_wly(echs_instant_t *restrict tgt, size_t nti, rrulsp_t rr)
 		m_mask |= 0b1111111111110U;
 	}
 
-	if (wd_mask) {
-		unsigned int w = echs_scale_wday(srcsca, y, m, d);
-
-		/* duplicate the wd_mask so we can just right shift it
-		 * and wrap around the end of the week */
-		wd_mask |= wd_mask << 7U;
-		/* zap to current day so increments are relative to DTSTART */
-		wd_mask >>= w;
+	with (unsigned int w = echs_scale_wday(srcsca, y, m, d)) {
+		if (!wd_mask) {
+			/* no BYDAY, it's the weekday of DTSTART then */
+			wd_mask = 1U << w;
+		}
+		/* weeks start on Monday, that matters when INTERVAL > 1,
+		 * so wind back to the Monday on or before DTSTART,
+		 * instants before DTSTART are skipped further down */
+		for (unsigned int back = w - MON; back; back--) {
+			if (UNLIKELY(!--d)) {
+				if (UNLIKELY(!--m)) {
+					y--;
+					m = 12U;
+				}
+				d = echs_scale_ndim(srcsca, y, m);
+			}
+		}
+		/* zap to Monday so increments are relative to the week */
+		wd_mask >>= MON;
 		/* clamp wd_mask to exactly 7 days */
-		wd_mask &= 0b111111U;
+		wd_mask &= 0b1111111U;
 		/* calculate wd increments
 		 * i.e. a bitset of increments, 4bits per increment */
 		for (unsigned int i = 0U, j = 0U;
@@ -1456,8 +1467,9 @@ rrul_fill_wly(echs_instant_t *restrict tgt, size_t nti, rrulsp_t rr)
 				if (UNLIKELY(echs_instant_lt_p(rr->until, x))) {
 					goto fin;
 				} else if (!(m_mask & (1U << this_m))) {
-					/* skip the whole month */
-					goto skip;
+					/* skip this day, the rest of the week
+					 * might be in another month */
+					break;
 				} else if (UNLIKELY(res >= nti)) {
 					/* that's all they asked for */
 					goto fin;
@@ -1468,8 +1480,6 @@ rrul_fill_wly(echs_instant_t *restrict tgt, size_t nti, rrulsp_t rr)
 				tgt[res++] = x;
 			}
 		} while ((incs >>= 4U) && res < nti);
-	skip:
-		;
 	}
 
 fin:
